@@ -1,16 +1,16 @@
 CONSTANTS
   K = 2
-  MaxNodes = 12
-  BaseSet <- ArtBases
+  MaxNodes = 14
+  BaseSet <- AllBases
   RunCfgSeq <- RunsEnv
-  Prods <- AllProds
+  Prods <- SibFamily
   KISet <- KIClassic
   EnvWhereSet <- EnvWheres
   SibSeqSet <- SibCover
   Deviations = {}
   EmitMin = 2
   EmitFrom = 2
-  EmitMod = 32
+  EmitMod = 8
 INIT Init
 NEXT Next
 INVARIANTS
